@@ -4,7 +4,7 @@ Decided statically (translation validation by normal form, E6):
   R02.1 API surface: the 47 reference functions exist in the port with the same positional parameters
         (the port may only append defaulted parameters).
   R02.2 per-function equivalence: the value-numbered normal form of every shared function equals the
-        normal form of the vendored reference (modern_robotics 1.1.1) modulo the rewrite set N1..N16.
+        normal form of the vendored reference (modern_robotics 1.1.1) modulo the rewrite set N1..N34.
   R02.3 never raises where the reference returns (definite-failure lint over the port module):
         unresolved names, NumPy attributes that no longer exist in the installed NumPy, subscripts of
         higher rank than the value.
@@ -141,7 +141,7 @@ def check(model, rep):
         'well-typed inputs. Plus a definite-failure lint and the structural success-flag clause of the IK solvers.')
     rep.trusted_base += ['modern_robotics 1.1.1 core.py (vendor/modern_robotics_core_1_1_1.py) as the reference semantics',
                          'Numba compiles the accepted NumPy subset with NumPy semantics',
-                         'rewrite set N1..N16 (DESIGN.md E6) with the shape contracts of sa/engine/mrspec.py',
+                         'rewrite set N1..N34 (DESIGN.md E6) with the shape contracts of sa/engine/mrspec.py',
                          'installed NumPy stub as oracle for module attributes']
     results = r021_r022(model, rep)
     r023(model, rep)
